@@ -14,12 +14,12 @@ demo=$(ls "$d"/*_test.go 2>/dev/null | head -1)
 pkgdir=$(head -5 "$demo" | grep -oE '(cmd/[A-Za-z0-9_/-]+|internal/[A-Za-z0-9_/-]+)' | head -1)
 pkgdir=${pkgdir:-.}
 grep -q '^package main' "$demo" && pkgdir=cmd/protoc-gen-connect-go
-run_demo() { (cd "$wt" && cp "$demo" "$pkgdir/zz_seed_demo_test.go" && go test -vet=off -count=1 ${RACE:-} -run "${DEMO_RUN:-.}" "./$pkgdir" > "$wt/.demo.log" 2>&1; rc=$?; rm -f "$pkgdir/zz_seed_demo_test.go"; exit $rc); }
+run_demo() { (cd "$wt" && cp "$demo" "$pkgdir/zz_seed_demo_test.go" && go test -vet=off -count=1 -timeout 120s ${RACE:-} -run "${DEMO_RUN:-.}" "./$pkgdir" > "$wt/.demo.log" 2>&1; rc=$?; rm -f "$pkgdir/zz_seed_demo_test.go"; exit $rc); }
 names=$(grep -oE '^func (Test[A-Za-z0-9_]+)' "$demo" | awk '{print $2}' | paste -sd'|')
 DEMO_RUN="^(${names})\$"
 run_demo; base=$?
 echo "demo on unchanged tree: rc=$base"
-(cd "$wt" && git apply "$d/patch.diff") || { echo "PATCH-DOES-NOT-APPLY"; exit 3; }
+(cd "$wt" && (git apply "$d/patch.diff" 2>/dev/null || patch -p1 -s --no-backup-if-mismatch < "$d/patch.diff")) || { echo "PATCH-DOES-NOT-APPLY"; exit 3; }
 (cd "$wt" && go build ./... 2>&1 | head -5) | grep . && { echo "BUILD-FAILED"; exit 3; }
 suite=0
 for i in 1 2; do (cd "$wt" && go test -vet=off -count=1 ./... 2>&1 | grep -v "no test files" | grep -v "^ok" | head -10) | grep . && suite=1; done
